@@ -8,25 +8,28 @@ HdrVal(f, k) == LET S == { i \in DOMAIN f.hdr : f.hdr[i].key = k } IN IF S = {} 
 
 ReadClauses(e) ==
     LET f == e.file  lay == Layout(e.layout)
-        tol(d) == 4 + Len(TempoList(f)) IN
+        ntl == Len(TempoList(f))
+        \* e.slack: half a tick per beat of the prefix when the file's bpm is not a whole number of ticks per beat (bundled maps)
+        tol(d) == 4 + ntl + e.slack IN
     [ ln_paired |-> Paired(f, lay),
       hits  |-> NotesMatch(DenHits(f, lay), e.chart.hits, tol, TRUE),
       holds |-> HoldsMatch(DenHolds(f, lay), e.chart.holds, tol, TRUE),
-      tempo_present |-> TempoPresent(f, e.chart.bpms, 4 + Len(TempoList(f))),
+      tempo_present |-> TempoPresent(f, e.chart.bpms, 4 + ntl + e.slack),
       header |-> /\ e.chart.title = HdrVal(f, "TITLE") /\ e.chart.artist = HdrVal(f, "ARTIST")
                  /\ e.chart.version = HdrVal(f, "PLAYLEVEL")
                  /\ \A i \in DOMAIN f.exbpm : \E j \in DOMAIN e.chart.exbpms :
                         e.chart.exbpms[j].id = f.exbpm[i].id /\ e.chart.exbpms[j].bpm1000 = f.exbpm[i].bpm1000
                  /\ \A i \in DOMAIN f.hdr :
-                        (f.hdr[i].key \notin {"TITLE", "ARTIST", "PLAYLEVEL", "BPM", "LNOBJ"} /\ SubSeq(f.hdr[i].key, 1, 3) \notin {"WAV", "BPM"})
+                        (f.hdr[i].val # "" /\ f.hdr[i].key \notin {"TITLE", "ARTIST", "PLAYLEVEL", "BPM", "LNOBJ"} /\ SubSeq(f.hdr[i].key, 1, 3) \notin {"WAV", "BPM"})
                           => \E j \in DOMAIN e.chart.misc : e.chart.misc[j][1] = f.hdr[i].key /\ e.chart.misc[j][2] = f.hdr[i].val ]
 
 (* C05: the written bytes denote the chart: positions compared in time through the FILE's own tempo  *)
 (* list, which must itself reproduce the in-memory tempo timeline                                    *)
 WriteClauses(e) ==
     LET f == e.file  lay == Layout(e.layout)
-        tol(d) == IF e.on_grid THEN 6 + Len(TempoList(f)) ELSE d.bl \div 192 + 6 + Len(TempoList(f))
-        tl == TempoList(f) IN
+        tl == TempoList(f)
+        ntl == Len(tl)
+        tol(d) == IF e.on_grid THEN 6 + ntl ELSE d.bl \div 192 + 6 + ntl IN
     [ syntax |-> f.junk = 0 /\ f.bad_lines = 0,
       ln_paired |-> Paired(f, lay),
       hits  |-> NotesMatch(DenHits(f, lay), e.chart.hits, tol, FALSE),
